@@ -238,7 +238,7 @@ def run(ctx):
     if ctx.quick:
         plans = [(OLD, 2, [0]), (NEW, 1, [0]), (MIX, 2, [0])]
     else:
-        plans = [(OLD, 3, [0, 1]), (OLD + NEW, 2, [0, 1])]
+        plans = [(OLD, 3, [0, 1]), (OLD + NEW, 2, [0])]
     seen, reqs = set(), []
     for names, groups, variants in plans:
         for r in enumerate_requests(ctx, wd, names, groups, variants):
@@ -250,7 +250,7 @@ def run(ctx):
         raise T.MachineryError(f"only {len(reqs)} requests enumerated")
     ctx.extra["requests"] = len(reqs)
     judge(ctx, wd, reqs)
-    extra = [random_req(ctx.rng) for _ in range(400 if ctx.quick else 6000)]
+    extra = [random_req(ctx.rng) for _ in range(400 if ctx.quick else 4000)]
     judge(ctx, wd, extra)
     ctx.exhaustive = True
     ctx.rule = ("all requests TLC enumerates for the plans "
